@@ -259,7 +259,12 @@ class Body:
             if k == "use":
                 base = self.origin(rv["op"], depth + 1)
             elif k == "ref" or k == "rawptr":
-                base = ("ref", self.place_origin(rv["pl"], depth + 1))
+                inner = self.place_origin(rv["pl"], depth + 1)
+                # reborrow &*p ≡ p
+                if inner[0] in ("param", "local") and inner[2] and inner[2][-1] == "*":
+                    base = (inner[0], inner[1], tuple(inner[2][:-1])) + tuple(inner[3:])
+                else:
+                    base = ("ref", inner)
             elif k == "bin":
                 base = ("bin", rv["op"], self.origin(rv["a"], depth + 1), self.origin(rv["b"], depth + 1))
             elif k == "un":
